@@ -111,6 +111,14 @@ Fixpoint dict_del (d : list (val * val)) (k : val) : list (val * val) :=
   | (k', v') :: r => if val_eqb k k' then r else (k', v') :: dict_del r k
   end.
 
+(* l[i] = v on a list (i in range) *)
+Fixpoint list_set (l : list val) (i : nat) (v : val) : list val :=
+  match l, i with
+  | [], _ => []
+  | _ :: r, O => v :: r
+  | x :: r, S i' => x :: list_set r i' v
+  end.
+
 Fixpoint lookup (x : string) (l : list (string * val)) : option val :=
   match l with
   | [] => None
@@ -366,6 +374,27 @@ Definition method (o : val) (m : string) (args : list val) : option (val * optio
   | _ => None
   end.
 
+(* stable insertion sort of (key, item) pairs by numeric key *)
+Fixpoint insert_keyed (e : val * val) (l : list (val * val)) : option (list (val * val)) :=
+  match l with
+  | [] => Some [e]
+  | y :: t =>
+      match cmp_eval Lt (fst e) (fst y) with
+      | Some true => Some (e :: y :: t)
+      | Some false => option_map (cons y) (insert_keyed e t)
+      | None => None
+      end
+  end.
+
+Fixpoint sort_keyed_aux (l : list (val * val)) : option (list (val * val)) :=
+  match l with
+  | [] => Some []
+  | e :: t => match sort_keyed_aux t with Some s => insert_keyed e s | None => None end
+  end.
+
+Definition sort_keyed (l : list (val * val)) : option (list val) :=
+  option_map (map snd) (sort_keyed_aux l).
+
 (* ---- the interpreter ---------------------------------------------------------- *)
 Section Interp.
   (* calls the subset does not define: name, positional and keyword arguments, state *)
@@ -378,6 +407,7 @@ Section Interp.
         let n := Z.of_nat (List.length l) in
         let j := if Z.ltb i 0 then (i + n)%Z else i in
         if (Z.leb 0 j && Z.ltb j n)%bool then Ok (nth (Z.to_nat j) l VNone) st else Exc "IndexError" st
+    | VNone, _ => Exc "TypeError" st       (* None[k]: 'NoneType' object is not subscriptable *)
     | _, _ => Stuck "subscript"
     end.
 
@@ -391,6 +421,12 @@ Section Interp.
     let fix evals (l : list expr) (st : state) {struct l} : outcome (list val) :=
       match l with
       | [] => Ok [] st
+      | EStar x :: r =>                  (* f( *x, ...): evaluate x, splice its items into the argument list *)
+          bind (eval x st) (fun v st1 =>
+            match container_items v with
+            | Some items => bind (evals r st1) (fun vs st2 => Ok (items ++ vs)%list st2)
+            | None => Stuck "star of a non-container"
+            end)
       | x :: r => bind (eval x st) (fun v st1 => bind (evals r st1) (fun vs st2 => Ok (v :: vs) st2))
       end in
     let fix evalkw (l : list (string * expr)) (st : state) {struct l} : outcome (list (string * val)) :=
@@ -437,12 +473,32 @@ Section Interp.
         bind (eval o st) (fun ov st1 => bind (evals args st1) (fun vs st2 =>
           match kw, method ov m vs with
           | [], Some (r, None) => Ok r st2
+          | [], None => ext ("$method." ++ m) (ov :: vs) [] st2   (* not a container method (fmt.format(x)): ask [ext] *)
           | _, _ => Stuck ("method " ++ m)     (* mutating methods only as statements, see exec *)
           end))
     | ESetLit items => bind (evals items st) (fun vs st1 => Ok (VSet (set_add_all [] vs)) st1)
     | EListLit items => bind (evals items st) (fun vs st1 => Ok (VList vs) st1)
     | ETupleLit items => bind (evals items st) (fun vs st1 => Ok (VTuple vs) st1)
     | EDictLit items => bind (evalkv items [] st) (fun d st1 => Ok (VDict d) st1)
+    | EStar _ => Stuck "starred expression outside an argument list"
+    | ESorted it x key =>
+        (* stable insertion sort on the keys; a key is the value of [key] with [x] bound to the item *)
+        bind (eval it st) (fun v st1 =>
+          match container_items v with
+          | None => Stuck "sorted of a non-container"
+          | Some items =>
+              bind ((fix keys (l : list val) (st : state) {struct l} : outcome (list (val * val)) :=
+                       match l with
+                       | [] => Ok [] st
+                       | i :: r =>
+                           bind (eval key (set_var x i st)) (fun k st' =>
+                             bind (keys r st') (fun ks st'' => Ok ((k, i) :: ks) st''))
+                       end) items st1) (fun kis st2 =>
+                match sort_keyed kis with
+                | Some sorted => Ok (VList sorted) st2
+                | None => Stuck "sorted: keys are not comparable numbers"
+                end)
+          end)
     end.
 
   (* write [v] at the place an expression denotes, rebuilding the spine up to the variable *)
@@ -459,6 +515,15 @@ Section Interp.
         bind (eval o st) (fun ov st1 => bind (eval k st1) (fun kv st2 =>
           match ov with
           | VDict d => store o (VDict (dict_set d kv v)) st2
+          | VList l =>                     (* l[i] = v, i an in-range (possibly negative) index *)
+              match kv with
+              | VInt i =>
+                  let n := Z.of_nat (List.length l) in
+                  let j := if Z.ltb i 0 then (i + n)%Z else i in
+                  if (Z.leb 0 j && Z.ltb j n)%bool then store o (VList (list_set l (Z.to_nat j) v)) st2
+                  else Exc "IndexError" st2
+              | _ => Stuck "subscript store"
+              end
           | _ => Stuck "subscript store"
           end))
     | _ => Stuck "store target"
